@@ -481,11 +481,18 @@ async fn on_commitment_revocation(
                                 "{tower_id} cannot be reached. Adding {} to pending appointments",
                                 appointment.locator
                             );
-                            let mut state = plugin.state().lock().unwrap();
-                            state.set_tower_status(tower_id, TowerStatus::TemporaryUnreachable);
-                            state.add_pending_appointment(tower_id, &appointment);
-                            send_to_retrier(&state, tower_id, appointment.locator);
+                        } else {
+                            // The tower replied, but not with something we can use. Do not lose the data:
+                            // keep it pending and let the retrier (with its backoff) try again.
+                            log::warn!(
+                                "Unexpected response from {tower_id}. Adding {} to pending appointments",
+                                appointment.locator
+                            );
                         }
+                        let mut state = plugin.state().lock().unwrap();
+                        state.set_tower_status(tower_id, TowerStatus::TemporaryUnreachable);
+                        state.add_pending_appointment(tower_id, &appointment);
+                        send_to_retrier(&state, tower_id, appointment.locator);
                     }
                     AddAppointmentError::ApiError(e) => match e.error_code {
                         errors::INVALID_SIGNATURE_OR_SUBSCRIPTION_ERROR => {
